@@ -23,7 +23,7 @@ from fsim.worlds import ekf as ekfw
 
 TOL = 1e-9
 MAXDT_MENU = [0.1, 0.05, 0.25, 0.07, 1.0, 1.0 / 60.0, 1.0 / 30.0, 0.123456789, 0.30000000000000004]  # incl. values with > 6 significant digits
-K_MENU = [None, 1.0, 5.0, 3.0]
+K_MENU = [None, 1.0, 5.0, 3.0, 4, 7.0 / 3.0, 1]  # incl. ints and a long mantissa
 CPP_UNSAFE_MODELS = {"managed"}  # its symbol names collide with parameter names the generator emits ('state')
 
 
@@ -35,11 +35,18 @@ def generate(rng, prop, tier):
         if rng.random() < 0.2:
             d = models.curated(rng.choice([m for m in models.CURATED if m not in CPP_UNSAFE_MODELS]))
         else:
-            d = models.draw(rng, max_states=3, max_controls=2, max_cal=2, max_sensors=3, min_sensors=0 if prop == "C12" else 1, symbol_keys=False)
+            big = rng.random() < 0.2
+            d = models.draw(rng, max_states=4 if big else 3, max_controls=2, max_cal=2, max_sensors=3, min_sensors=0 if prop == "C12" else 1, symbol_keys=False)
         if bool(d["control"]) == want_ctl and bool(d["calibration"]) == want_cal:
             break
     cfg = {"cse": rng.random() < 0.5, "innovation_filtering": rng.choice(K_MENU), "max_dt_sec": fx(rng.choice(MAXDT_MENU)),
            "config_as_dict": rng.random() < 0.4}
+    if d["sensors"] and rng.random() < 0.1:
+        # an exact pseudo-measurement: one reading declared with variance exactly 0.0 (a falsy value)
+        key = rng.choice(sorted(d["sensors"]))
+        r = rng.choice(sorted(d["sensors"][key]["noise"]))
+        d["sensors"][key]["noise"][r] = fx(0.0)
+        d["tags"] = sorted(set(d["tags"]) | {"zero_sensor_noise"})
     if prop in ("C06", "C07") and rng.random() < (0.2 if prop == "C06" else 0.06):
         # exactly representable NIS tie (and +-1 ulp) on the selector model, through the GENERATED C++ filter
         t = ekfw._gen_tie(rng, models.curated("direct2"), dict(cfg, mode="direct"))
@@ -601,6 +608,12 @@ def _compare(schedule, expect, out_lines, res, n, S):
             cpp_unchanged = dline[0] == "1"
             u = extra["u"]
             res.stats["update"] += 1
+            P_in = extra["P_in"]
+            if u is not None and (u["condS"] > ekfw.GUARD_COND or not np.all(np.isfinite(u["S"])) or (P_in.size and float(np.linalg.norm(u["H"], 2)) ** 2 * float(np.linalg.norm(P_in, 2)) > 1e4 * float(np.max(np.abs(u["S"]))))):
+                # domain guard (same as the python world): S is numerically singular (e.g. an exact, zero-noise reading fused
+                # twice) -- two correct implementations legitimately differ on this step; both are re-synchronised after it
+                res.stats["probe:update_not_compared_singular_S"] += 1
+                continue
             # stored innovation
             if inn and inn[0] != "none":
                 ci = np.array([float.fromhex(v) for v in inn]).reshape(-1, 1)
